@@ -74,6 +74,9 @@ def scenario(draw):
         "azure_openai": draw(st.sampled_from(["none"] * 6 + ["key-only", "endpoint-only", "key+empty-endpoint", "endpoint+empty-key", "both-empty"])),
         "llama": draw(st.sampled_from(["none"] * 6 + ["both", "key-only", "endpoint-only", "key+empty-endpoint", "endpoint+empty-key", "both-empty"])),
     }
+    # a plain OpenAI key next to a half-set Azure OpenAI pair does not make the configuration consistent: still status 3
+    # (only drawn with a half-set pair: on its own the key makes the run construct a network client, outside this property)
+    sc["ai"]["openai_key"] = draw(st.sampled_from(["none", "set", "set", "empty"]))
     sc["output"] = draw(st.sampled_from(["file", "file", "file", "none", "existing", "directory", "missing-parent", "through-file", "devfull"]))
     sc["output_twice"] = draw(st.integers(0, 7)) == 0
     sc["opts"] = opts
@@ -213,6 +216,8 @@ def build(sc, sd):
             env[prefix + "_ENDPOINT"] = ""  # exported but empty (an undefined CI secret): not a usable value
         if m in ("endpoint+empty-key", "both-empty"):
             env[prefix + "_API_KEY"] = ""
+    if ai.get("openai_key", "none") != "none" and ai["azure_openai"] in ("key-only", "endpoint-only", "key+empty-endpoint", "endpoint+empty-key"):
+        env["CODEMODDER_OPENAI_API_KEY"] = "sk-k" if ai["openai_key"] == "set" else ""
     facts = dict(
         arg_error=bool(err) or sel == "conflict",
         info=bool(sc["info"]),
@@ -227,6 +232,7 @@ def build(sc, sd):
         report_unencodable=bool(sc.get("badname")) and CODEMOD in ([argv[i + 1] for i, t in enumerate(argv[:-1]) if t == "--codemod-include"] or [""])[-1].split(","),
         out_path=str(out_path) if out_path is not None else None,
         out_kind=out,
+        openai_key_with_half_azure="CODEMODDER_OPENAI_API_KEY" in env,
     )
     return argv, env, facts
 
